@@ -122,6 +122,10 @@
 (define (iset-adjoin-node! a b)
   (cond
    ((iset-empty? a)
+    ;; any children are empty too, but their ranges need not be
+    ;; consistent with the new node, so drop them
+    (iset-left-set! a #f)
+    (iset-right-set! a #f)
     (iset-start-set! a (iset-start b))
     (iset-end-set! a (iset-end b))
     (iset-bits-set! a (iset-bits b)))
